@@ -548,6 +548,8 @@ def install(ip):
             return PList(term=v.t, elty=v.ty[1])
         if isinstance(v, PDict) and v.symbolic:
             return ip.symdict_keys_list(v)
+        if isinstance(v, ArrayVal):
+            return PList(None if v.lst.symbolic else list(v.lst.items), v.lst.term, v.lst.elty)
         return PList(ip.iterate(v))
     bc("list", list_ctor)
 
@@ -1162,6 +1164,46 @@ def install(ip):
     mod("random", random=Opaque("random.random"), choice=Opaque("random.choice"), randint=Opaque("random.randint"),
         sample=Opaque("random.sample"), shuffle=Opaque("random.shuffle"), getrandbits=Opaque("random.getrandbits"),
         SystemRandom=Opaque("random.SystemRandom"))
+
+    # asyncio (A7): scheduling primitives are events; awaiting anything external is a yield point
+    def _iscoroutine(ip, a, k):
+        from .values import CoroVal
+        v = a[0]
+        if isinstance(v, CoroVal):
+            return True
+        if isinstance(v, Sym) and v.ty == "any":
+            return ip.wrap(ufun("iscoroutine", zu.AnyS, zu.BoolS)(v.t), "bool")
+        if isinstance(v, Opaque) and v.name.startswith("coroutine"):
+            return True
+        return False
+
+    def _ensure_future(ip, a, k):
+        ip.path.assumptions.add("A7: ensure_future/create_task only schedule; the coroutine starts at a later loop iteration")
+        ev = ip.event("ensure_future", a, k)
+        if getattr(ip, "on_effect", None) is not None:
+            ip.on_effect(ev)
+        return Opaque("future", kind="effect", spec={"*": {}})
+
+    def _yield_point(name):
+        def f(ip, a, k):
+            ip.path.assumptions.add("A7: code between two suspension points is atomic")
+            ev = ip.event("await:" + name, a, k)
+            h = getattr(ip, "on_yield", None)
+            if h is not None:
+                h(ev)
+            return None
+        return Builtin(name, f)
+    fut_cls = BuiltinClass("Future", (), lambda ip, a, k: Opaque("future", kind="effect", spec={"*": {}}))
+    mod("asyncio", iscoroutine=Builtin("iscoroutine", _iscoroutine), ensure_future=Builtin("ensure_future", _ensure_future),
+        create_task=Builtin("create_task", _ensure_future), sleep=_yield_point("sleep"), gather=_yield_point("gather"),
+        wait_for=_yield_point("wait_for"), Future=fut_cls, CancelledError=ip.exc_classes["CancelledError"],
+        TimeoutError=ip.exc_classes["TimeoutError"], InvalidStateError=ip.exc_classes["InvalidStateError"],
+        DatagramProtocol=BuiltinClass("DatagramProtocol"), DatagramTransport=BuiltinClass("DatagramTransport"),
+        BaseTransport=BuiltinClass("BaseTransport"), AbstractEventLoop=BuiltinClass("AbstractEventLoop"),
+        Task=BuiltinClass("Task"), Event=BuiltinClass("Event"), Lock=Builtin("Lock", lambda ip, a, k: _NullCtx()),
+        get_running_loop=Opaque("asyncio.get_running_loop"), get_event_loop=Opaque("asyncio.get_event_loop"),
+        iscoroutinefunction=Builtin("iscoroutinefunction", lambda ip, a, k: isinstance(a[0], (FuncVal, BoundMethod)) and isinstance((a[0].func if isinstance(a[0], BoundMethod) else a[0]).node, ast.AsyncFunctionDef)))
+    mod("inspect", iscoroutinefunction=ip.ext_modules["asyncio"].attrs["iscoroutinefunction"], signature=Opaque("inspect.signature"))
 
     from . import prims_methods
     prims_methods.install(ip)
